@@ -21,12 +21,13 @@ UTAGS = {
     20: 'a parameter is kept that is in no statement, in no kept distribution and not fixed to 0',
     21: 'a random variable is kept although neither it nor a parameter of its distribution occurs in a statement',
     22: 'a kept parameter is not a parameter of the input',
+    23: 'the covariance (or variance) of random variables that remain in one distribution changed',
     24: 'a removed parameter still occurs in a kept distribution',
     25: 'a random variable whose distribution parameters occur in a statement was removed',
     26: 'a parameter fixed to 0 was removed (the code exempts these on purpose)',
 }
 UCORR = (7, 8, 9)
-UORACLE = {18: (7, 8, 9), 19: (7, 8, 9), 20: (7, 8), 21: (7, 9), 22: (8,), 24: (7, 8), 25: (7, 9), 26: (8,)}
+UORACLE = {18: (7, 8, 9), 19: (7, 8, 9), 20: (7, 8), 21: (7, 9), 22: (8,), 23: (7,), 24: (7, 8), 25: (7, 9), 26: (8,)}
 
 
 # ------------------------------------------------------------------ generator
